@@ -178,7 +178,7 @@ func (g *genCtx) field(depth int, used map[uint32]bool) (FieldT, bool) {
 			return FieldT{}, false
 		}
 		return FieldT{AVP: c.Name, DT: c.DT, Kind: KAVP, Tag: pickTag(t),
-			Wrap: rapid.SampledFrom([]string{WNone, WPtr, WSlicePtr}).Draw(t, "wrap")}, true
+			Wrap: rapid.SampledFrom([]string{WNone, WPtr, WSlicePtr, WSlicePtr, WSlice}).Draw(t, "wrap")}, true
 	case k >= 64 && k < 87 && depth < 3 && len(g.pl.byType[gen.TGrouped]) > 0: // struct for a grouped AVP
 		c, ok := g.pl.pick(t, []string{gen.TGrouped}, used)
 		if !ok {
